@@ -211,7 +211,10 @@ func init() {
 			if i < 20 {
 				return nullItemsCase(i - 16)
 			}
-			return twin(ctx, i-20, r)
+			if i < 28 {
+				return patternPropsCase(i - 20)
+			}
+			return twin(ctx, i-28, r)
 		},
 		opts:    sg.Opts{MaxDepth: 3, PNullable: 0.3, PAddProps: 0.35, NullType: true, RootKinds: true, AddPropsTrue: true, W: map[string]float64{"map": 2.5}},
 		classes: docgen.Classes{"type": true, "nullok": true, "nullreq": true, "addkey": true},
@@ -1384,6 +1387,68 @@ func untypedDefaultCase(i int) *sem.Case {
 	c.Docs = append(c.Docs, docgen.Doc{V: jsonx.Obj{}, Class: "default", Label: "all-absent"}, docgen.Doc{V: all, Class: "default", Label: "all-present"})
 	for _, kv := range all {
 		c.Docs = append(c.Docs, docgen.Doc{V: jsonx.Obj{{K: kv.K, V: nil}}, Class: "default", Label: "null-" + kv.K}, docgen.Doc{V: all.Del(kv.K), Class: "default", Label: "absent-" + kv.K})
+	}
+	return c
+}
+
+// anyOfOverlapCase: anyOf branches that declare one property with different rules (size >= 10 in one, size <= 20 in
+// the other), inline first or $ref first: a document that satisfies exactly one branch is accepted.
+func anyOfOverlapCase(i int) *sem.Case {
+	b0 := &sg.Schema{Types: []string{"object"}, Props: []sg.Prop{{Name: "kind", S: &sg.Schema{Types: []string{"string"}}}, {Name: "size", S: &sg.Schema{Types: []string{"integer"}, Min: sg.Fp(10)}}}, Required: []string{"kind", "size"}}
+	b1 := &sg.Schema{Types: []string{"object"}, Props: []sg.Prop{{Name: "label", S: &sg.Schema{Types: []string{"string"}}}, {Name: "size", S: &sg.Schema{Types: []string{"integer"}, Max: sg.Fp(20)}}}, Required: []string{"label", "size"}}
+	root := &sg.Schema{Types: []string{"object"}}
+	m0, m1 := b0, b1
+	switch i % 4 {
+	case 1:
+		root.Defs = []sg.Prop{{Name: "B1", S: b1}}
+		m1 = &sg.Schema{Ref: "#/$defs/B1", Target: b1}
+	case 2:
+		root.Defs = []sg.Prop{{Name: "B0", S: b0}}
+		m0 = &sg.Schema{Ref: "#/$defs/B0", Target: b0}
+	case 3:
+		root.Defs = []sg.Prop{{Name: "B0", S: b0}, {Name: "B1", S: b1}}
+		m0, m1 = &sg.Schema{Ref: "#/$defs/B0", Target: b0}, &sg.Schema{Ref: "#/$defs/B1", Target: b1}
+	}
+	members := []*sg.Schema{m0, m1}
+	if (i/4)%2 == 1 {
+		members = []*sg.Schema{m1, m0}
+	}
+	root.Props = []sg.Prop{{Name: "shape", S: &sg.Schema{AnyOf: members}}}
+	c := &sem.Case{Root: root, Sig: fmt.Sprintf("anyof-overlap/%d", i%8), NoAuto: true}
+	for _, d := range []jsonx.Obj{
+		{{K: "kind", V: "a"}, {K: "size", V: jsonx.N(30)}}, {{K: "label", V: "b"}, {K: "size", V: jsonx.N(5)}}, {{K: "kind", V: "a"}, {K: "label", V: "b"}, {K: "size", V: jsonx.N(15)}},
+		{{K: "kind", V: "a"}, {K: "size", V: jsonx.N(5)}}, {{K: "label", V: "b"}, {K: "size", V: jsonx.N(25)}}, {{K: "size", V: jsonx.N(15)}}, {{K: "kind", V: "a"}, {K: "size", V: jsonx.N(10)}}, {{K: "label", V: "b"}, {K: "size", V: jsonx.N(20)}},
+	} {
+		c.Docs = append(c.Docs, docgen.Doc{V: jsonx.Obj{{K: "shape", V: d}}, Class: "subset", Label: "anyof-overlap"})
+	}
+	return c
+}
+
+// patternPropsCase: typed additionalProperties next to declared properties and a patternProperties keyword (which
+// the statements do not speak about): an undeclared key that matches no pattern is an additional property, and its
+// value is type-checked as one.
+func patternPropsCase(i int) *sem.Case {
+	t := []string{"integer", "string", "boolean", "number"}[i%4]
+	obj := &sg.Schema{Types: []string{"object"}, Props: []sg.Prop{{Name: "name", S: &sg.Schema{Types: []string{"string"}}}}, AddProps: &sg.Schema{Types: []string{t}}}
+	obj.Extra = append(obj.Extra, jsonx.KV{K: "patternProperties", V: jsonx.Obj{{K: "^x-", V: jsonx.Obj{{K: "type", V: t}}}, {K: "^y-", V: jsonx.Obj{{K: "type", V: "object"}}}}})
+	root := obj
+	if (i/4)%2 == 1 {
+		root = &sg.Schema{Types: []string{"object"}, Props: []sg.Prop{{Name: "inner", S: obj}}}
+	}
+	wrap := func(o jsonx.Obj) any {
+		if root != obj {
+			return jsonx.Obj{{K: "inner", V: o}}
+		}
+		return o
+	}
+	good := map[string]any{"integer": jsonx.N(5), "string": "s", "boolean": true, "number": jsonx.Num("2.5")}[t]
+	c := &sem.Case{Root: root, Sig: fmt.Sprintf("pattern-props/%s/%d", t, (i/4)%2), NoAuto: true}
+	c.Docs = append(c.Docs, docgen.Doc{V: wrap(jsonx.Obj{{K: "name", V: "n"}, {K: "count", V: good}}), Class: "typefault", Label: "good"})
+	for _, w := range []any{"str", true, []any{jsonx.N(1)}, jsonx.Obj{{K: "a", V: jsonx.N(1)}}, jsonx.N(7)} {
+		if jsonx.Kind(w) == jsonx.Kind(good) || (t == "number" && jsonx.Kind(w) == "number") {
+			continue
+		}
+		c.Docs = append(c.Docs, docgen.Doc{V: wrap(jsonx.Obj{{K: "name", V: "n"}, {K: "count", V: w}}), Class: "typefault", Label: "additional-key-wrong-type"})
 	}
 	return c
 }
